@@ -11,11 +11,59 @@ EXPLANATION = (
     "the end (pop), i.e. the cheapest path is expanded first; zero-cost (stopped) elements are never pushed; the result "
     "lists only elements whose flag is set.")
 DECIDED = ["R17a cost table of PathHandler::process (TABLE)", "R17b preconditions of GraphSearch::path (DOM)",
+           "R17d the result is written only when a path is taken from the queue, never during expansion (WHO)",
+           "R15g evaluate_conditions folds every condition with the documented step (shared with C15)",
            "R17c cheapest-first expansion: descending sort + pop; stopped elements unusable; result filtered by flag"]
 UNDECIDED = ["optimality of the returned path and the visited-set logic (algorithmic, needs execution or proof)"]
 
 PH = "<agdb::db::db_search_handlers::PathHandler<'_, Store> as agdb::graph_search::path_search::PathSearchHandler>::process"
 PS = "agdb::graph_search::path_search::PathSearch::"
+
+
+def result_writer_rule(ctx, rule="R17d"):
+    """A path becomes the result only when it is TAKEN from the cost-ordered queue (then no cheaper candidate is left), never
+    at the moment an expansion first reaches the destination: the functions that write `PathSearch.result` are not
+    reachable from the expansion functions (expand / expand_node / expand_edge), and some function on the
+    process_last_path chain writes it.  (WHO rule on the field's writers over the call graph.)"""
+    from lib.callgraph import CallGraph
+    fa = ctx.facts
+    cg = CallGraph(fa)
+    writers = {}
+    n = 0
+    for b in fa.bodies.values():
+        if b.crate != "agdb" or not (b.root or b.path).startswith(PS[:-2]):
+            continue
+        n += 1
+        for bi, st in cfg.assigns(b):
+            hit = False
+            if ".result" in [e for e in st["l"][1:] if isinstance(e, str)] and b.local_ty(st["l"][0]).replace("&mut ", "").startswith(PS[:-2]):
+                hit = True
+            r = st["r"]
+            if r["k"] == "ref" and r.get("mut") and ".result" in [e for e in r["p"][1:] if isinstance(e, str)] and \
+                    b.local_ty(r["p"][0]).replace("&mut ", "").startswith(PS[:-2]):
+                hit = True
+            if hit:
+                writers.setdefault(b.path, (b, b.loc(bi)))
+    exp = [fa.body(PS + f) for f in ("expand", "expand_node", "expand_edge")]
+    exp = [e for e in exp if e is not None]
+    if len(exp) < 3:
+        ctx.ob(rule, "anchor:expand", False, "mechanism PathSearch::expand / expand_node / expand_edge not found",
+               key="%s|%s|missing-anchor|expand" % (ctx.pid, rule))
+        return
+    reach = cg.closure(exp)
+    ctor = {PS + "new"}
+    bad = [(p, w) for p, w in writers.items() if p in reach and common.norm(p) not in ctor]
+    chain = cg.closure([fa.body(PS + "process_last_path")]) if fa.body(PS + "process_last_path") else {}
+    taken = [p for p in writers if p in chain and p not in reach]
+    ok = not bad and bool(taken)
+    ctx.ob(rule, "PathSearch.result:written-when-taken-from-queue", ok,
+           "result is written by %s only (not reachable from the expansion functions)" % sorted(common.norm(p).split("::")[-1] for p in taken)
+           if ok else
+           ("`%s` (%s) writes PathSearch.result during expansion: the first path that reaches the destination becomes the result "
+            "while a queued candidate of equal or lower total cost has not been taken yet" % (common.norm(bad[0][0]), bad[0][1][1]))
+           if bad else "no function on the process_last_path chain writes PathSearch.result (idiom not recognised)",
+           (bad[0][1][0].where if bad else ""))
+    ctx.floor(rule, "PathSearch bodies scanned for writers of `result`", n, 8)
 
 
 def run(ctx):
@@ -142,6 +190,10 @@ def run(ctx):
         flt = [i for i, t in cfg.calls(b) if (cfg.callee_decl(t) or "").endswith("Iterator::filter")]
         ctx.ob("R17c", "search:result-filter", bool(flt), "result lists only flagged elements (filter on .1)" if flt else
                "the result is no longer filtered by the per-element flag", b.where)
+    result_writer_rule(ctx)
+    # the cost of an element is decided by evaluate_conditions: its folding step is part of C17 (R15g, shared with C15)
+    from rules import C15
+    C15.conditions_fold_rule(ctx)
     for fn in ("expand_edge", "expand_node"):
         b = ctx.anchor("R17c", PS + fn)
         if b:
